@@ -131,10 +131,9 @@ Definition py_drop_last (s : string) (m : nat) : string := String.substring 0 (S
 Definition py_sorted (l : list string) : list string := sort_uniq l.
 
 (** primitives NOT translated (tied differentially only): [get_constants]/[statements_get_constants] (the hard-coded
-    seed set is re-added by every call), [get_metavariables], [deconstruct_compressed_proof], [match_axiom] *)
+    seed set is re-added by every call), [deconstruct_compressed_proof], [match_axiom] *)
 Definition statements_get_constants (l : list stmt) : option (list string) :=
   match stmts_consts l with Some c => Some (builtins ++ c)%list | None => None end.
-Definition get_metavariables (s : stmt) : list string := stmt_mvs s.
 Definition deconstruct_compressed_proof (s : stmt) : option (list string * unit) :=
   match s with SP _ _ pf => match proof_labels pf with Some l => Some (l, tt) | None => None end | _ => None end.
 Definition maxiom_is_none (m : maxiom) : bool := match m with MNone => true | _ => false end.
